@@ -4,3 +4,11 @@ from .exceptions import HTTPError, ConnectionError, ReadTimeout, Timeout, Chunke
 
 class Response:
     status_code = 200
+
+
+class Session:
+    def __init__(self, *a, **k):
+        self.headers = {}
+
+    def mount(self, *a, **k):
+        pass
